@@ -1,7 +1,7 @@
 (* Proofs/IdsExpr.v -- C20 at the level of id expressions: the two evaluators that give a sprite's `id:` its
    meaning (const_simplify for the id written, the DFS const evaluator for the value of the name) agree --
    by the C11 theorems -- hence the expression-level compile refines the value-level one of Model/Ids.v. *)
-From TV Require Import Base.I32 Base.F32 Model.Ops Model.Expr Gen.OpTable Proofs.SimplifySound Proofs.ConstDfs
+From TV Require Import Base.I32 Base.F32 Model.Ops Model.Expr Gen.OpTable Proofs.SimplifySound Proofs.ConstDfs Proofs.ConstVm
   Model.Ids Gen.Ids Proofs.Ids Model.IdsExpr.
 Open Scope Z_scope.
 
@@ -41,20 +41,26 @@ Section S.
 
   Definition explicit_ok (s : sprite_src) : Prop := forall e, ss_id s = Some e -> exists w, written_value cache e = Ok w.
 
+  Lemma to_decl_some s e w : ss_id s = Some e -> written_value cache e = Ok w -> sd_id (to_decl s) = Some w.
+  Proof. intros H1 H2. unfold to_decl. cbn [sd_id]. now rewrite H1, H2. Qed.
+  Lemma to_decl_none s : ss_id s = None -> sd_id (to_decl s) = None.
+  Proof. intros H1. unfold to_decl. cbn [sd_id]. now rewrite H1. Qed.
+
   Lemma written_src_refines wraps step : forall l next w,
     written_ids_src gen_optable libm cache wraps step next l = Ok w ->
     written_ids wraps step next (map to_decl l) = Ok w /\ Forall explicit_ok l.
   Proof.
     induction l as [|s l IH]; intros next w H; cbn [written_ids_src] in H.
     - inversion H. split; [reflexivity|constructor].
-    - cbn [map written_ids]. unfold to_decl at 1. cbn [sd_id].
+    - cbn [map written_ids].
       destruct (ss_id s) as [e|] eqn:Es.
       + destruct (written_value cache e) as [x| | |] eqn:Ew; try discriminate. cbn [obind] in H.
+        rewrite (to_decl_some s e x Es Ew).
         destruct (negb wraps && (two32 <=? u32 x + step))%bool; [discriminate|].
         destruct (written_ids_src _ _ _ _ _ _ l) as [r| | |] eqn:Er; try discriminate. cbn [obind] in H.
         destruct (IH _ _ Er) as [A B]. rewrite A. cbn [obind]. split; auto.
         constructor; auto. intros e' He'. rewrite Es in He'. inversion He'; subst. eauto.
-      + cbn [obind] in H.
+      + cbn [obind] in H. rewrite (to_decl_none s Es).
         destruct (negb wraps && (two32 <=? next + step))%bool; [discriminate|].
         destruct (written_ids_src _ _ _ _ _ _ l) as [r| | |] eqn:Er; try discriminate. cbn [obind] in H.
         destruct (IH _ _ Er) as [A B]. rewrite A. cbn [obind]. split; auto.
@@ -71,16 +77,17 @@ Section S.
     induction l as [|s l IH]; intros base bv k cs R Hex H; cbn [const_ids_src] in H.
     - inversion H. reflexivity.
     - inversion Hex as [|? ? Hs Hl]; subst.
-      cbn [map const_ids seq_apply]. unfold to_decl at 1 2 3. cbn [sd_id sd_name].
+      cbn [map const_ids seq_apply]. change (sd_name (to_decl s)) with (ss_name s).
       destruct (ss_id s) as [e|] eqn:Es.
-      + destruct (Hs e eq_refl) as (w & Ew). rewrite Ew.
+      + destruct (Hs e Es) as (w & Ew). rewrite (to_decl_some s e w Es Ew).
         destruct (const_value dl e k0) as [v| | |] eqn:Ev; try discriminate. cbn [obind] in H.
         destruct (const_ids_src _ _ _ _ _ e (k0 + 1) l) as [r| | |] eqn:Er; try discriminate. cbn [obind] in H.
         inversion H; subst cs. clear H.
         rewrite (two_evaluators_agree e w k0 v Ew Ev). cbn [obind].
         rewrite (IH e w (k0 + 1) r); auto.
         intros k' v' Hv'. eapply two_evaluators_agree; eauto.
-      + destruct (const_value dl base k) as [v| | |] eqn:Ev; try discriminate. cbn [obind] in H.
+      + rewrite (to_decl_none s Es).
+        destruct (const_value dl base k) as [v| | |] eqn:Ev; try discriminate. cbn [obind] in H.
         destruct (const_ids_src _ _ _ _ _ base (k + 1) l) as [r| | |] eqn:Er; try discriminate. cbn [obind] in H.
         inversion H; subst cs. clear H.
         rewrite (R k v Ev). cbn [obind]. rewrite (IH base bv (k + 1) r); auto.
@@ -134,10 +141,10 @@ Proof.
     change (getz (it_const_base0 T)) with (Ok 0 : outcome Z). change (getz (it_const_k0 T)) with (Ok 0 : outcome Z).
     change (getz (it_writer_next0 T)) with (Ok 0 : outcome Z). change (getz (it_writer_step T)) with (Ok 1 : outcome Z).
     change (it_const_op T) with SeqAdd. change (it_script_const T) with PosIndex. cbn [obind].
-    rewrite concat_map. fold decls. rewrite C'. cbn [obind]. rewrite A. cbn [obind]. rewrite Cs. cbn [negb].
+    rewrite <- concat_map. fold decls. rewrite C'. cbn [obind]. rewrite A. cbn [obind]. rewrite Cs. cbn [negb].
     rewrite W'. reflexivity. }
   destruct (anm_name_value_is_table_value _ _ _ V) as (L & S1 & S2). cbn [ai_entries ai_scripts ai_uses] in *.
-  rewrite concat_map in L, S1. fold decls in L, S1. rewrite map_length in L.
+  rewrite <- concat_map in L, S1. fold decls in L, S1. rewrite map_length in L.
   split; [exact L|]. split.
   - intros j n Hu. destruct (S1 j n Hu) as (a & Ha & (i & d & Hd & Hn) & Hall).
     exists a. split; auto. split.
